@@ -1528,10 +1528,13 @@ func (c *control) dirCond(colon, at bool, params []any) {
 		}
 	default:
 		if n < 0 {
-			if no, ok := arg.(slip.Fixnum); ok {
-				n = int(no)
-			} else {
-				slip.TypePanic(c.scope, 0, "conditional directive argument", arg, "fixnum")
+			switch ta := arg.(type) {
+			case slip.Fixnum:
+				n = int(ta)
+			case *slip.Bignum:
+				n = len(strs) // beyond every clause, only the default clause can be selected
+			default:
+				slip.TypePanic(c.scope, 0, "conditional directive argument", arg, "integer")
 			}
 		}
 		if 0 <= n && n < len(strs) {
